@@ -4,11 +4,13 @@ C10.overlap  A7 over (new.start, new.end, old.start, old.end): a scan lets a req
              from the scanned area; resize additionally passes every disjoint request and never rejects the area itself
 C10.who      only the lifecycle functions mutate the area list or an area's start/length
 C10.term     retry loops of the allocators have a strictly progressing variant
+C10.search   a search for a free range returns its error only after a probe, or on parameter-only conditions
 C10.resize   resized data = zero vector of the new size with the common prefix copied index for index
 C10.fresh    the address returned by an 'anywhere' allocator is the start of the call that succeeded
 """
 from .. import absint as A
 from .. import facts as F
+from .. import hmodel as H
 from .. import hutil as U
 from .. import memmodel as M
 from .. import prims as P
@@ -75,9 +77,11 @@ def run_scan(ctx, body, args, point, extents, order, seq=None):
     return outs, unroled
 
 
-def list_verdict(outs):
-    """list mode: (accepted, followed) -- some path returns success / every path stayed inside the list model"""
-    accepted = any(o.kind == "return" and not is_err(o) for o in outs)
+def list_verdict(outs, push=False):
+    """list mode: (accepted, followed) -- some path returns success (or adds an area) / every path stayed inside the
+    list model"""
+    accepted = any((o.kind == "return" and not is_err(o) and not push) or
+                   (push and any(e[0] == "area_push" for e in o.path.events)) for o in outs)
     followed = not any(o.path.tags.get("list_unsupported") for o in outs) and not any(o.kind == "cut" for o in outs)
     return accepted, followed
 
@@ -102,7 +106,9 @@ def disjoint_reps():
     return [lo, hi]
 
 
-def mkargs(body):
+def mkargs(body, extents=None):
+    """symbolic arguments of an area-creating function: the first u64 is the requested start, a Vec<u8> the data; any
+    further integer is a candidate for the requested length (collected into `extents`)"""
     args = [P.self_ref(True)]
     seen_start = seen_data = False
     for i in range(2, body["argc"] + 1):
@@ -113,9 +119,49 @@ def mkargs(body):
         elif isinstance(ty, list) and ty[0] == "adt" and ty[1] == "std::vec::Vec" and not seen_data:
             args.append(("datavec",))
             seen_data = True
+            if extents is not None:
+                extents.append(("len", ("datavec",)))
+        elif isinstance(ty, list) and ty[0] == "u":
+            args.append(A.W(("p%d" % i,), ty[1]))
+            if extents is not None:
+                extents.append(("p%d" % i,))
         else:
-            args.append(("name",) if not isinstance(ty, list) or ty[0] != "u" else A.W(("p%d" % i,), 64))
+            args.append(("name",))
     return args
+
+
+def push_entries(facts, pusher):
+    """the pub / pub(crate) functions through which a module-private area-adding function is reached (via
+    module-private functions only)"""
+    callers = {}
+    for k, b in facts.bodies.items():
+        if b["glue"]:
+            continue
+        owner = k.split("::{closure")[0]
+        for blk in b["blocks"]:
+            t = blk["term"]
+            if t["k"] == "call":
+                callers.setdefault(F.callee_name(t), set()).add(owner)
+    out, seen, todo = set(), set(), [pusher]
+    while todo:
+        k = todo.pop()
+        if k in seen:
+            continue
+        seen.add(k)
+        b = facts.bodies.get(k)
+        if b is None:
+            continue
+        if not module_private(b):
+            out.add(k)
+            continue
+        todo.extend(callers.get(k, ()))
+    return sorted(out)
+
+
+def module_private(b):
+    """visible inside its own module only (pub and pub(crate) functions can be called from anywhere in the crate)"""
+    v = b["vis"]
+    return v.startswith("Restricted(") and "DefId(0:0 " not in v
 
 
 def overlap(ctx):
@@ -124,14 +170,28 @@ def overlap(ctx):
     # ---------------- creation: every function that adds to the area list (found by role) must do the scan
     pushers = area_pushers(facts)
     ck.floor("functions adding to the area list", len(pushers), 1)
+    entries = []
     for pk in pushers:
+        for ek in push_entries(facts, pk):
+            if ek not in entries:
+                entries.append(ek)
+    ck.cov["area_adding_entries"] = [facts.bodies[e]["name"] for e in entries]
+    ck.floor("public functions adding to the area list", len(entries), 1)
+    for pk in entries:
       body = facts.bodies[pk]
+      l1 = body["locals"][1] if body["argc"] >= 1 else None
+      if not (isinstance(l1, list) and l1[0] == "ref"):
+          # no machine is passed in: a constructor adds to the list of the machine it has just made
+          ck.cov.setdefault("constructors_adding_areas", []).append(body["name"])
+          continue
       where = "%s:%d (%s)" % (body["span"][0], body["span"][1], body["name"])
       accepted_overlap = []
       rejected_disjoint = []
+      ext0 = []
+      mkargs(body, ext0)
       for o in C08.orderings(True):
         args = mkargs(body)
-        outs, unroled = run_scan(ctx, body, args, ("start",), [("len", ("datavec",))], o)
+        outs, unroled = run_scan(ctx, body, args, ("start",), ext0, o)
         total += 1
         passed, rejected = scan_outcome(outs)
         ov = M.overlap(o)
@@ -144,22 +204,21 @@ def overlap(ctx):
       nlist = 0
       rt = body["locals"][0]
       listed = isinstance(rt, list) and rt[:2] == ["adt", "std::result::Result"]
-      for o in C08.orderings(True) if listed else ():
+      for o in C08.orderings(True):
           if not M.overlap(o):
               continue
-          for d in disjoint_reps():
-              for seq in ([d, o], [o, d]):
-                  outs, _u = run_scan(ctx, body, mkargs(body), ("start",), [("len", ("datavec",))], seq[0], seq=seq)
-                  acc, followed = list_verdict(outs)
+          for seq in [[o]] + [s_ for d in disjoint_reps() for s_ in ([d, o], [o, d])]:
+                  outs, _u = run_scan(ctx, body, mkargs(body), ("start",), ext0, seq[0], seq=seq)
+                  acc, followed = list_verdict(outs, push=True)
                   if not followed:
                       continue
                   nlist += 1
                   if acc:
-                      list_bad.append("[%s | %s]" % (M.fmt_order(seq[0]), M.fmt_order(seq[1])))
+                      list_bad.append("[%s]" % " | ".join(M.fmt_order(x) for x in seq))
       ck.cov["list_runs:%s" % body["name"]] = nlist
       inst = "api=%s" % body["name"]
       if list_bad:
-          ck.violation("C10.overlap", inst + ",list", "accepts a colliding area in %d two-area lists (%s)" % (
+          ck.violation("C10.overlap", inst + ",list", "adds a colliding area to %d one- and two-area lists (%s)" % (
               len(list_bad), "; ".join(list_bad[:3])), where=where, witness={"lists": list_bad[:8]},
               what="the scan for collisions does not look at every area of the list")
       else:
@@ -212,6 +271,40 @@ def overlap(ctx):
                 nlist += 1
                 if acc:
                     list_bad.append("[%s | %s]" % (M.fmt_order(seq[0]), M.fmt_order(seq[1])))
+    # two areas with the same start (possible when one of them is empty): the one that is resized to a non-empty extent
+    # must not be the empty twin of a non-empty area -- afterwards both would cover the start address
+    twin_bad = []
+    ntwin = 0
+    full = [o for o in C08.orderings(True) if o["os"] == o["ns"] and o["os"] < o["oe"] and o["ns"] < o["ne"]]
+    empty = [o for o in C08.orderings(True) if o["os"] == o["ns"] == o["oe"] and o["ns"] < o["ne"]]
+    for x in full:
+        for z in empty:
+            for seq in ([x, z], [z, x]):
+                args = [P.self_ref(True), A.W(("start_addr",), 64), A.W(("new_size",), 64)]
+                outs, _u = run_scan(ctx, body, args, ("start_addr",), [("new_size",)], seq[0], seq=seq)
+                acc, followed = list_verdict(outs)
+                if not followed:
+                    continue
+                decided = True
+                for o_ in outs:
+                    if o_.kind != "return" or is_err(o_):
+                        continue
+                    hand = [e for e in o_.path.events if e[0] == "area_handout" and e[2]]
+                    if not hand:
+                        decided = False
+                        continue
+                    if seq[hand[-1][1]] is z:
+                        twin_bad.append("[%s]" % " | ".join(M.fmt_order(q) for q in seq))
+                ntwin += 1 if decided else 0
+    ck.cov["twin_list_runs:mem_resize_section"] = ntwin
+    if twin_bad:
+        ck.violation("C10.overlap", "api=mem_resize_section,twins", "grows the empty one of two areas that share a start in %d lists (%s)" % (
+            len(twin_bad), "; ".join(twin_bad[:3])), where=where, witness={"lists": twin_bad[:8],
+            "history": "mem_init_area(S, 10 bytes); mem_init_zero(S, 0); mem_resize_section(S, 5)"},
+            what="an empty area may share its start with another area; resizing by start address then grows the empty "
+                 "one over its non-empty twin: two areas cover the same addresses")
+    else:
+        ck.ok("C10.overlap", "api=mem_resize_section,twins")
     ck.cov["list_runs:mem_resize_section"] = nlist
     if list_bad:
         ck.violation("C10.overlap", "api=mem_resize_section,list", "succeeds with a colliding area in %d two-area lists (%s)" % (
@@ -324,8 +417,97 @@ def term(ctx):
                                  what="retry loop makes no progress for some inputs (e.g. zero length): does not terminate")
         if found_here:
             apis_with_loop += 1
+        search_probe(ctx, b, nme)
     ck.cov["retry_loops"] = nloops
     ck.floor("allocator / stack APIs with a retry loop in their private cone", apis_with_loop, 4)
+
+
+def creators(facts):
+    """functions from which an area-adding function is reachable (a call of one of them is a probe of the address space)"""
+    callers = {}
+    for k, b in facts.bodies.items():
+        if b["glue"]:
+            continue
+        owner = k.split("::{closure")[0]
+        for blk in b["blocks"]:
+            t = blk["term"]
+            if t["k"] == "call":
+                callers.setdefault(F.callee_name(t), set()).add(owner)
+    out, todo = set(), list(area_pushers(facts))
+    while todo:
+        k = todo.pop()
+        if k in out:
+            continue
+        out.add(k)
+        todo.extend(callers.get(k, ()))
+    return out
+
+
+def state_leaf(x):
+    """a leaf of a branch condition that is neither a constant nor derived from the function's own parameters"""
+    r = repr(x)
+    return "'param'" not in r and x[0] not in ("int", "str", "k")
+
+
+def search_probe(ctx, b, nme, rule="C10.search"):
+    """C10.search: a search for a free range gives up only after probing. A path that returns the function's error
+    without a single attempt to create the area must not have branched on the machine's state: a search that starts
+    from (or is cut short by) something read from the area list can fail although free space exists (seeded change
+    S56 started behind the most recently created area, which may lie above the search limit)."""
+    ck, facts = ctx.check, ctx.facts
+    mp = M.MemPrims(facts)
+    pr = P.HandlerPrims(facts, ctx.roles)
+    inline_ok = {x["path"] for x in private_cone(facts, b)}
+    crs = creators(facts)
+
+    def icpt(I, path, frame, t, name, args):
+        cb = facts.bodies.get(name)
+        if cb is not None and cb.get("impl_self") == AXE and cb["kind"] != "Closure" \
+                and name not in pr.by_path and name not in inline_ok:
+            path.events.append(("mcall", name))
+            p2 = path.copy()
+            rt = cb["locals"][0]
+            if isinstance(rt, list) and rt[0] == "adt" and rt[1] == "std::result::Result":
+                return [(A.OK(("ret", name, (), len(path.events))), path), (A.ERR(("e",)), p2)]
+            return [(("ret", name, (), len(path.events)), path)]
+        return mp.intercept(I, path, frame, t, name, args) or pr.intercept(I, path, frame, t, name, args)
+    I = A.Interp(facts, intercept=icpt, max_paths=20000)
+    args = []
+    for i in range(1, b["argc"] + 1):
+        ty = b["locals"][i]
+        if isinstance(ty, list) and ty[0] == "ref" and ty[2] == ["adt", AXE, []]:
+            args.append(P.self_ref(bool(ty[1])))
+        elif isinstance(ty, list) and ty[0] in ("u", "i"):
+            args.append(A.W(("param", i), 64))
+        else:
+            args.append(("param", i))
+    inst = "api=%s" % nme
+    try:
+        outs = list(I.run(b, args, A.Path()))
+    except Exception as e:  # noqa
+        ck.undecided_(rule, inst, "interpretation failed: %s" % e)
+        return
+    bad = None
+    nerr = nprobed = 0
+    for o in outs:
+        if o.kind != "return" or not is_err(o):
+            continue
+        nerr += 1
+        if any(e[0] == "mcall" and e[1] in crs for e in o.path.events):
+            nprobed += 1
+            continue
+        for c in o.path.conds:
+            lv = [x for x in H.leaves(c[0]) if state_leaf(x)]
+            if lv:
+                bad = bad or "gives up without a single probe after branching on %s" % A.show(U.strip(lv[0]))[:60]
+    ck.cov["search_error_paths:%s" % nme] = [nerr, nprobed]
+    if nprobed == 0:
+        bad = bad or "no error path that follows a failed probe was found"
+    if bad:
+        ck.violation(rule, inst, bad, where="%s:%d (%s)" % (b["span"][0], b["span"][1], b["name"]),
+                     what="the search for a free range can fail although free space exists")
+    else:
+        ck.ok(rule, inst, nprobed)
 
 
 def on_every_cycle(b, lp, update_blocks):
